@@ -57,6 +57,18 @@ CLAIMED = {
          "offset widening are not covered yet.",
     technique="TLA+ patch-application state machine checked by TLC (invariants + action properties); state-graph replay with fault injection",
     design="4/C18"),
+ "C05": dict(
+    category="model_checking",
+    text="GraphPack.tla states layout soundness independently of the packing heuristic; TLC checks that the "
+         "transformations a packer may make (duplication with link retargeting, reordering) preserve the tree "
+         "unfolding and that accepted layouts are sound, and enumerates every connected DAG of a boundary family "
+         "(sizes around 32K/64K, 16/24/32-bit links, multi-edges); each graph is compiled by the real packer "
+         "through the public FontWrite/dump_table API and the raw observations (object copies found by walking the "
+         "output, decoded offsets) are judged by GraphPackTrace!SoundObserved in TLC.",
+    note="Trusted: TLC, the harness's byte walker. <= 4 nodes; mock objects only here (lookup splitting and extension "
+         "promotion are reached through C16's GPOS tables once built); a reported packing failure is accepted.",
+    technique="TLA+ layout-soundness predicate + permitted-transformation model checked by TLC; exhaustive graph enumeration replayed on dump_table; trace validation of observed layouts",
+    design="4/C05"),
 }
 
 NOT_APPLICABLE = {
